@@ -6,6 +6,8 @@ import Mtv.Lemmas.C20
 namespace Mtv.Links
 open Mtv
 
+deriving instance DecidableEq for Except
+
 /-! ### byte classes -/
 
 theorem forall_uint8 {P : UInt8 → Prop} (h : ∀ n, n < 256 → P (UInt8.ofNat n)) : ∀ c, P c := by
